@@ -49,7 +49,11 @@ def gen_case(rng, i, tier):
             elif rng.random() < 0.08:
                 ch = {'$match': None, 'name': 'appended', 't': {'z': {'w': 1}}, 'h': {'$merge': 't.z', 'own': 1}}
                 labels.add('hist:doc-$match-null')
-            if rng.random() < 0.3 and '$match' not in ch:
+            if isinstance(docs[k].get('$repeat'), dict) and rng.random() < 0.5:
+                # the layer renames / removes a repeat dimension that strings of the document may still refer to
+                ch = rng.choice([{'$repeat': {'$replace': True, 'c': 2}}, {'$repeat': {'a': '$delete', 'c': 1}}, {'$repeat': {'b': '$delete'}}])
+                labels.add('hist:repeat-dimension-renamed')
+            elif rng.random() < 0.3 and '$match' not in ch:
                 ch = {'t': {'z': {'w': False}}} if rng.random() < 0.5 else {'t': {'x': 'changed'}}
             hist.append({'call': 'merge', 'id': 'c%d' % len(hist), 'data': ch, 'parents': ['d%d' % k]})
             labels.add('hist:layer-after')
@@ -73,6 +77,10 @@ def fixed_cases(tier):
     D = [{'$repeat': 2, 'a': '$repeat'}, {'h': {'$merge': 't', 'y': 2}, 't': {'x': 1}}, {'l': [{'$merge': 't', 'y': 2}, 1], 't': {'x': 1}},
          {'rl': [{'$repeat': 2, 'i': '$repeat'}]}, {'$repeat': {'a': 2}, 'v': '$"{$repeat:a}"'}, {'e': {'$encode': 'json', 'k': 1}}, {'o': {'$output': True, 'p': 1}, 'q': 2},
          {'i': '$"x{t.x}"', 't': {'x': 1}}, {'h': '$merge:t', 't': {'x': {'$merge': 'u'}}, 'u': {'k': 1}}]
+    RC = {'$repeat': {'shard': 2}, 'v': '$"{$repeat.shard}"'}
+    for lay in ({'$repeat': {'$replace': True, 'replica': 3}}, {'$repeat': {'shard': '$delete', 'replica': 1}}):
+        out.append({'hist': [{'call': 'merge', 'id': 'd0', 'data': RC, 'parents': []}, {'call': 'output', 'format': 'json'},
+                             {'call': 'merge', 'id': 'c1', 'data': lay, 'parents': ['d0']}, {'call': 'output', 'format': 'json'}], 'labels': ['fixed']})
     for d in D:
         for f in ('json', 'yaml'):
             out.append({'hist': [{'call': 'merge', 'id': 'd0', 'data': d, 'parents': []}, {'call': 'output', 'format': f}, {'call': 'output', 'format': 'json'},
